@@ -133,6 +133,12 @@ func (s *Sim) primaryDigests() map[int64]string {
 func (s *Sim) endOfRun() {
 	switch s.prop {
 	case "C06", "C11", "C12", "C13":
+	case "C42":
+		s.checkSearch("end-of-run")
+		return
+	case "C43":
+		s.checkExportImport()
+		return
 	default:
 		return
 	}
